@@ -470,6 +470,61 @@ cmd_cmp (int thorough)
 
 #define PSTACK ((size_t) 1 << 19)
 static unsigned char *pstack;
+/* Messages whose BIT count does not fit in 32 bits (2^29 bytes and more) handed over in ONE update call, in two
+   unequal calls, and in 1 MiB pieces: the length arithmetic of the primitives (bit counters kept in two words,
+   size << 3, size >> 29) is not exercised by anything shorter.  */
+static int
+cmd_huge (int lg, int a)
+{
+  if (a < 0 || a >= A_N || lg < 20 || lg > 33) return 2;
+  size_t n = ((size_t) 1 << lg) + 3 + (size_t) (rnd () % 61);
+  uint64_t *m = malloc (n + 8);
+  if (!m) { printf ("STAT {\"comparisons\": 0, \"huge_skipped_no_memory\": 1}\n"); return 0; }
+  uint64_t x = rnd ();
+  for (size_t i = 0; i < n / 8 + 1; i++) { x = x * 6364136223846793005ull + 1442695040888963407ull; m[i] = x; }
+  unsigned char want[64], got[64];
+  unsigned char *cblk = malloc (ctx_size (a) + 64);
+  void *c = cblk;
+  ref_digest (a, m, n, want);
+  const unsigned char *b = (const unsigned char *) m;
+  for (int mode = 0; mode < 3; mode++)
+    {
+      lib_init (a, c);
+      if (mode == 0) lib_update (a, c, b, n);
+      else if (mode == 1) { size_t k = 1 + (size_t) (rnd () % 200); lib_update (a, c, b, k); lib_update (a, c, b + k, n - k); }
+      else for (size_t pos = 0; pos < n; pos += (1u << 20)) lib_update (a, c, b + pos, n - pos < (1u << 20) ? n - pos : (1u << 20));
+      memset (got, 0xEE, sizeof got);
+      lib_final (a, c, got);
+      n_cmp++;
+      if (memcmp (want, got, dlen[a]))
+        viol (aname[a], "digest mismatch for a message of %zu bytes (2^%d + %zu) %s", n, lg, n - ((size_t) 1 << lg),
+              mode == 0 ? "passed in one call" : mode == 1 ? "passed as a short call and one huge call" : "passed in 1 MiB pieces");
+    }
+  if (a == A_SHA1 || a == A_SHA256)
+    {
+      unsigned char key[40];
+      for (int i = 0; i < 40; i++) key[i] = (unsigned char) rnd ();
+      /* the reference HMAC copies the message: inner digest by hand over two updates is not offered by the one-shot
+         libgcrypt call, so use its incremental interface */
+      gcry_md_hd_t h;
+      if (!gcry_md_open (&h, galgo[a], GCRY_MD_FLAG_HMAC) && !gcry_md_setkey (h, key, sizeof key))
+        {
+          gcry_md_write (h, m, n);
+          memcpy (want, gcry_md_read (h, 0), dlen[a]);
+          gcry_md_close (h);
+          if (a == A_SHA1) hmac_sha1_process_data (b, n, key, sizeof key, got);
+          else HMAC_SHA256_Buf (key, sizeof key, b, n, got);
+          n_cmp++;
+          if (memcmp (want, got, dlen[a]))
+            viol (a == A_SHA1 ? "hmac-sha1" : "hmac-sha256", "mismatch for a text of %zu bytes", n);
+        }
+    }
+  printf ("CLS huge %s 2^%d\n", aname[a], lg);
+  printf ("STAT {\"comparisons\": %ld, \"huge_messages\": 1}\n", n_cmp);
+  free (cblk); free (m);
+  return n_viol ? 1 : 0;
+}
+
 static ucontext_t ctx_main, ctx_co;
 static void (*co_fn) (void);
 static void co_entry (void) { co_fn (); }
@@ -617,6 +672,12 @@ main (int argc, char **argv)
       rs = strtoull (argv[2 + (argc > 3)], 0, 0) * 0x9E3779B97F4A7C15ull + 1;
       for (int i = 0; i < POOL_N; i++) pool_bytes[i] = (unsigned char) rnd ();
       return cmd_cmp (!strcmp (argv[2], "thorough"));
+    }
+  if (!strcmp (argv[1], "huge") && argc >= 5)
+    {
+      /* huge <seed> <log2 size> <algorithm index> */
+      rs = strtoull (argv[2], 0, 0) * 0x9E3779B97F4A7C15ull + 3;
+      return cmd_huge (atoi (argv[3]), atoi (argv[4]));
     }
   if (!strcmp (argv[1], "wipe") && argc >= 4)
     {
